@@ -29,12 +29,12 @@ TIMEOUT = 900
 
 
 def cases(tier, seed):
-    forms = ["bare", "attr", "alias", "wrapped", "pkginit", "initroot", "chain", "pinned", "lambda", "factory", "xdeco"]
+    forms = ["bare", "attr", "alias", "wrapped", "pkginit", "initroot", "chain", "pinned", "lambda", "factory", "xdeco", "nestedlocal"]
     for form in forms:
         edges = all_edges(3, form)
         graphs = [(kinds, mask) for kinds in itertools.product(["memento", "plain"], repeat=2)
                   for mask in range(1 << len(edges))]
-        if tier == "quick" and form in ("lambda", "factory", "xdeco"):  # quick: these forms without self-loops
+        if tier == "quick" and form in ("lambda", "factory", "xdeco", "nestedlocal"):  # quick: these forms without self-loops
             loops = sum(1 << i for i, (u, v) in enumerate(edges) if u == v)
             graphs = [(kinds, mask) for kinds, mask in graphs if not mask & loops]
         for i in range(0, len(graphs), 64):
@@ -115,6 +115,14 @@ def render_small(pkg, n, kinds, edges, form):
             else:
                 refs.append("n%d(x)" % t)
         L += [ind + "        " + r for r in refs] or [ind + "        pass"]
+        if form == "nestedlocal":
+            # the functions this one does NOT refer to lend their names to locals of nested scopes (an inner function's
+            # variables, a lambda's parameter, a comprehension's variable)
+            non = ["n%d" % t for t in range(n) if (u, t) not in edges]
+            if non:
+                L += [ind + "    def inner_(y):"] + [ind + "        %s = y" % nm for nm in non] + [ind + "        return " + non[0],
+                      ind + "    x = inner_(x)", ind + "    x = (lambda %s: %s)(x)" % (non[-1], non[-1]),
+                      ind + "    x = [%s for %s in [x]][0]" % (non[0], non[0])]
         L += [ind + "    return x", ""]
         if plain_as == "factory":
             L += ["    return n%d" % u, "", "n%d = make_n%d()" % (u, u), ""]
@@ -248,6 +256,8 @@ def simulate_calls(prog, root):
         calls = list(nd["calls"])
         if nd["nested"] and nd["nested"]["call"] is not None:
             calls.append({"t": nd["nested"]["call"], "form": nd["nested"].get("form", "bare")})
+        if nd.get("cbdefault") is not None:
+            calls.append({"t": nd["cbdefault"], "form": "default value"})
         for c in calls:
             t = c["t"]
             if nodes[t]["kind"] == "memento":
@@ -317,6 +327,16 @@ def run_random(case, out, fail):
     rng = core.rng_for(case["seed"], ID, case["idx"])
     prog = progs.gen_program(rng, "vp14_%d_%d" % (case["seed"], case["idx"]), p_explicit=0.25 if case["idx"] % 3 == 0 else 0.1, p_hidden=0.5,
                              p_init=0.2 if case["idx"] % 2 else 0.4, p_ext=0.2)
+    if case["idx"] % 4 == 1:
+        # a memento function is the default value of a parameter of another one of its module, which calls it through
+        # that parameter: named in the function's header, so part of its closure
+        nodes = prog["nodes"]
+        cands = [(u, t) for u in range(len(nodes)) for t in range(u + 1, len(nodes))
+                 if nodes[u]["kind"] == "memento" and nodes[t]["kind"] == "memento" and nodes[u]["mod"] == nodes[t]["mod"]]
+        if cands:
+            u, t = rng.choice(cands)
+            nodes[u]["cbdefault"] = t
+            out["obs"]["programs_with_a_function_as_default_value"] += 1
     with env.Scratch() as sc:
         try:
             got = procs.in_child(random_child, {"prog": prog, "root": sc.path("p")})
